@@ -248,10 +248,8 @@ class MCLevyCopulaSimulationFixedTimes(MCLevyCopulaSimulation, SimulationFixedTi
 
     def simulate_one_path(self) -> StochasticPath:
         # simulate the jump values
-        simulated_jumps = self.simulate_jumps()
-        jumps = np.hstack(
-            (np.zeros(self._dimension)[:, np.newaxis], simulated_jumps[:, np.newaxis])
-        )
+        simulated_jumps = self.simulate_jumps()  # one column per product date
+        jumps = np.hstack((np.zeros(self._dimension)[:, np.newaxis], simulated_jumps))
 
         # simulate the diffusion part
         simulated_diffusion = self.simulate_diffusion_part()
@@ -272,10 +270,11 @@ class MCLevyCopulaSimulationFixedTimes(MCLevyCopulaSimulation, SimulationFixedTi
     @staticmethod
     def project(values, dim):
         zero = (0.0,) * dim
-        definitive_values = (
+        definitive_values = [
             sliceStates[-1] if sliceStates.size else zero for sliceStates in values
-        )
-        return np.array(*definitive_values)
+        ]
+        # shape (dimension, number of product dates)
+        return np.array(definitive_values, dtype=float).T
 
     def simulate_jumps(self):
         mc = self.simulate_markov_chain()
